@@ -206,6 +206,32 @@ def equivalence_variants(src_text: str, qual: str):
             new = ast.BinOp(left=ast.Constant(value=1), op=ast.LShift(), right=ast.Constant(value=sh))
             if _replace(fn, target, new):
                 yield (f"spell {n.value} as 1 << {sh} (line {n.lineno})", _unparse(t))
+    # polarity inversion of if/else
+    for idx, n in enumerate(nodes0):
+        if isinstance(n, ast.If) and n.orelse and not (len(n.orelse) == 1 and isinstance(n.orelse[0], ast.If)):
+            t = copy.deepcopy(base)
+            m = [x for x in ast.walk(_func_node(t, qual))][idx]
+            m.test = ast.UnaryOp(op=ast.Not(), operand=m.test)
+            m.body, m.orelse = m.orelse, m.body
+            yield (f"invert polarity of `if {ast.unparse(n.test)[:50]}` (line {n.lineno})", _unparse(t))
+    # consistent renaming of one local
+    params = {a.arg for a in fn0.args.args + fn0.args.kwonlyargs + fn0.args.posonlyargs}
+    locals_ = []
+    for n in ast.walk(fn0):
+        if isinstance(n, ast.Name) and isinstance(n.ctx, ast.Store) and n.id not in params and n.id not in locals_ and not n.id.startswith("_"):
+            locals_.append(n.id)
+    nested = any(isinstance(n, (ast.FunctionDef, ast.Lambda)) and n is not fn0 for n in ast.walk(fn0))
+    globals_ = {x for n in ast.walk(fn0) if isinstance(n, (ast.Global, ast.Nonlocal)) for x in n.names}
+    if not nested:
+        for name in locals_[:6]:
+            if name in globals_:
+                continue
+            t = copy.deepcopy(base)
+            fn = _func_node(t, qual)
+            for n in ast.walk(fn):
+                if isinstance(n, ast.Name) and n.id == name:
+                    n.id = name + "_r"
+            yield (f"rename local `{name}`", _unparse(t))
     # no-op insertion at the top of the function
     t = copy.deepcopy(base)
     fn = _func_node(t, qual)
@@ -322,7 +348,7 @@ def run_for(chk: Checker, prop: str) -> Dict:
         }
     }
     for r in regress:
-        if r["verdict"] != "reported":
+        if r["verdict"].startswith("NOT reported"):
             chk.unk("selftest", f"regression {r['commit']}", "-", f"reverting {r['commit']} does not make the rule report {r['key']!r}: {r['verdict']}")
     return out
 
